@@ -55,11 +55,14 @@ class Opts:
         self.full_exprs = False     # use expressions that need educe's `full` feature (syn/full)
         self.p_uniform = 0.25       # chance that all fields of a variant share one kind
         self.p_rank_edge = 0.2      # chance (per variant) of explicit ranks in the range of the default ranks
+        self.param_attrs = True     # attributes (`#[allow(..)]`, `#[cfg(all())]`) on some generic parameters
+        self.all_method = False     # comparison-like traits: every field goes through a custom method or is ignored
         self.rich = False           # allow the rich generics flavour (two lifetimes, two type
                                     # parameters, a const parameter, a user where-clause)
         self.__dict__.update(kw)
 
 
+PARAM_ATTRS = ["#[allow(non_camel_case_types)]", "#[cfg(all())]", "#[allow(unused)]", "#[allow(non_upper_case_globals, non_snake_case)]"]
 DEFAULT_NAMES = None   # C19 installs a hostile name provider here
 EXCLUDE_KINDS = set()  # C19: kinds whose type text needs `std` (the definitions live in a no_std crate)
 
@@ -117,6 +120,11 @@ def random_type(rng, traits, opts=None):
         cname = o.names.const_param(rng) if o.names else rng.choice(["N", "N", "M", "H", "LEN", "HH"])
         td.params.append({"kind": "const", "name": cname, "arg": "2"})
         td.notes["const"] = cname
+    if o.param_attrs:
+        # attributes in front of generic parameters travel with them into every impl header
+        for p in td.params:
+            if rng.random() < 0.08:
+                p["attr"] = rng.choice(PARAM_ATTRS)
 
     pool = []
     for k in kinds.values():
@@ -403,6 +411,15 @@ def decorate(rng, td, o):
                 r = rng.random()
                 if f.sem.get("_constarr"):
                     has_cap = trait in f.kind.caps
+                if o.all_method:
+                    # no field is handled by the built-in trait: custom method or ignored
+                    if f.kind.dom > 1 and f.kind.key != "ArrN":
+                        s["method"] = RT + rng.choice(methods)
+                    else:
+                        s["ignore"] = True
+                    s["carrier"] = rng.choice(carrier_opts)
+                    f.sem[trait] = s
+                    continue
                 if not has_cap:
                     if r < 0.5 or f.kind.dom == 1:
                         s["ignore"] = True
@@ -646,6 +663,16 @@ def decorate(rng, td, o):
                     # stand-alone Copy: Clone comes from std derive, which bounds every parameter
                     pass
                 td.tsem.setdefault(t, {})["bound"] = b
+
+
+    elif o.bounds and not td.params:
+        # without generic parameters every bound mode means the same (no where-clause): the impl must not change with it
+        for t in td.traits:
+            if t in ("Into", "Deref", "DerefMut") or (t == "Copy" and "Clone" in tset) or (t == "Eq" and "PartialEq" in tset) \
+                    or (t == "PartialOrd" and "Ord" in tset):
+                continue
+            if rng.random() < 0.12:
+                td.tsem.setdefault(t, {})["bound"] = rng.choice([("none",), ("none",), ("all",)])
 
 
 def delegated_types(td, trait):
